@@ -201,6 +201,10 @@ func execScript(c *core.Ctx, w *drv.World, script []scriptOp) [][]string {
 				}
 			}
 			w.Steps = append(w.Steps, fmt.Sprintf("DropPrefix(%x)", all))
+			if len(op.Prefixes) > 0 {
+				// a multi-prefix drop rewrites groups of tables on every level: validate the structure right away
+				checkStructure(c, w.Sig+"|after-dropprefix", w.DB, w.Opt, true, w.Witness)
+			}
 		case "dropall":
 			if err := w.DB.DropAll(); err != nil {
 				c.Violation(w.Sig+"|dropall-error", err.Error(), w.Witness())
